@@ -43,19 +43,32 @@ var libCircuits = []string{
 // garbleEvalCheck garbles c with the given randomness and key, evaluates the
 // flat assignments and judges C01's oracle. Returns false after a violation.
 func garbleEvalCheck(cs *vrt.Case, tag string, c *circuit.Circuit, rnd *steer, key []byte, vecs []*big.Int, tuples bool) bool {
+	ok, _ := garbleEvalKeep(cs, tag, c, rnd, key, vecs, tuples)
+	return ok
+}
+
+// garbleEvalKeep is garbleEvalCheck that also hands back the garbling when it
+// is kept (rnd.keep: not released), so that it can be evaluated again later.
+func garbleEvalKeep(cs *vrt.Case, tag string, c *circuit.Circuit, rnd *steer, key []byte, vecs []*big.Int, tuples bool) (bool, *circuit.Garbled) {
 	var g *circuit.Garbled
 	var err error
 	if pi := vrt.Guard(func() { g, err = c.Garble(rnd, key) }); pi != nil {
 		cs.Violate("C01|garble-panic|"+pi.Frame, "Garble panicked: "+pi.Value, map[string]any{"tag": tag, "stack": pi.Stack})
-		return false
+		return false, nil
 	}
 	if err != nil {
 		cs.Violate("C01|garble-error", "Garble failed on a well-formed circuit: "+err.Error(), map[string]any{"tag": tag})
-		return false
+		return false, nil
 	}
 	if !rnd.keep {
 		defer g.Release()
+		return evalGarbled(cs, tag, c, g, key, vecs, tuples), nil
 	}
+	return evalGarbled(cs, tag, c, g, key, vecs, tuples), g
+}
+
+// evalGarbled evaluates the flat assignments on a garbling and judges C01's oracle.
+func evalGarbled(cs *vrt.Case, tag string, c *circuit.Circuit, g *circuit.Garbled, key []byte, vecs []*big.Int, tuples bool) bool {
 	nin := c.Inputs.Size()
 	nout := c.Outputs.Size()
 	ok := true
@@ -129,6 +142,12 @@ func garbleEvalCheck(cs *vrt.Case, tag string, c *circuit.Circuit, rnd *steer, k
 		}
 	}
 	return ok
+}
+
+type keptGarbling struct {
+	g   *circuit.Garbled
+	key []byte
+	rep int
 }
 
 func b2i(b bool) int {
@@ -323,6 +342,7 @@ func runC01One(cs *vrt.Case) {
 		reuseKey := r.Bool()
 		klFixed := vrt.Pick(r, []int{16, 24, 32})
 		var keyBuf []byte
+		var kept []keptGarbling
 		if reuseKey && reps < 2 {
 			reps = 2
 		}
@@ -347,11 +367,37 @@ func runC01One(cs *vrt.Case) {
 				key = keyBuf
 				cs.Count("garblings_with_reused_key_buffer", 1)
 			}
-			if !garbleEvalCheck(cs, fmt.Sprintf("random circuit rep %d", rep), c, st, key, vecs, true) {
+			if rep > 0 && r.Intn(3) == 0 {
+				// a garbling that fails part-way between two good ones (the label
+				// source dies after a PRNG number of bytes)
+				fr := &failingReader{r: r.Fork(), left: r.Intn(16*(2*nin+3) + 8)}
+				if fg, ferr := c.Garble(fr, r.Bytes(32)); ferr == nil && fg != nil {
+					fg.Release()
+				} else {
+					cs.Count("failed_garblings_in_history", 1)
+				}
+			}
+			okRep, keptG := garbleEvalKeep(cs, fmt.Sprintf("random circuit rep %d", rep), c, st, key, vecs, true)
+			if !okRep {
 				break
+			}
+			if keptG != nil {
+				kept = append(kept, keptGarbling{keptG, append([]byte(nil), key...), rep})
 			}
 			if nontriv {
 				cs.Key("rand", fmt.Sprint(vrt.HashBytes([]byte(fmt.Sprint(c.Gates))), seed, kl))
+			}
+		}
+		// garblings that were not released stay valid: evaluate them again
+		// after all later garblings (and failed garblings) of the circuit
+		for _, kg := range kept {
+			sub := vecs
+			if len(sub) > 8 {
+				sub = sub[:8]
+			}
+			cs.Count("kept_garblings_evaluated_again_at_the_end", 1)
+			if !evalGarbled(cs, fmt.Sprintf("random circuit rep %d, evaluated again after %d later garblings", kg.rep, reps-1-kg.rep), c, kg.g, kg.key, sub, false) {
+				break
 			}
 		}
 		computeCheck(cs, "random circuit", c, vecs)
